@@ -208,3 +208,8 @@ def rep_deprecate_all():
         xpmtype = cls.__getxpmtype__()
         if not xpmtype.deprecated:
             xpmtype.deprecate()
+
+
+class DictHolder(Config):
+    """used by bounded/findings.py (C12 finding: dict value with a "type" key)"""
+    d: Param[Dict[str, str]]
